@@ -9,6 +9,7 @@ PROP = "C05"
 LEVEL = "exploration"
 SHARDS = {"quick": 8, "thorough": 16}
 TIMEOUT = {"quick": 900, "thorough": 7200}
+THOROUGH_MULT = 4   # thorough budgets below are multiplied by this (sized for roughly five minutes on 16 cores)
 REQUIRED = {"hash_len": 4000, "address": 2000, "script_template": 200, "pubkey_address": 300, "shared_wallet": 80}
 ANCHORS = ['helper:hash160', 'ripemd:ripemd160', 'keys:PublicKey.address', 'base_wallet:BaseWallet.p2pkh_address', 'base_wallet:BaseWallet.p2wpkh_address', 'base_wallet:BaseWallet.p2sh_p2wpkh_address', 'base_wallet:BaseWallet.p2wsh_address', 'base_wallet:BaseWallet.p2sh_p2wsh_address', 'script:Script.raw_serialize', 'helper:h160_to_p2sh_address', 'helper:h256_to_p2wsh_address']
 RULE = ("hash clause: EVERY byte length 0..1024 x {zeros, ff, counter, random} (4100 messages, every RIPEMD-160 padding "
